@@ -5730,6 +5730,8 @@ class CodegenCtx:
         """
 
         if isinstance(value, str):
+            if any(ord(x) > 255 for x in value):
+                raise IllegalDFAStateError("String constants can only contain bytes (use \\x escapes for other encodings)", into)
             escaped_length = len(value.encode('latin-1'))
         else:
             escaped_length = len(value)
